@@ -50,6 +50,15 @@ pub fn replay(cases: &[Value], out: &mut Out) {
 	});
 }
 
+async fn endpoint_bp<'a>(eps: &'a mut HashMap<String, Endpoint>, entry: &str, req: u32) -> &'a Endpoint {
+	let key = format!("{entry}:{req}:bp");
+	if !eps.contains_key(&key) {
+		let e = Endpoint::new(if entry == "wsconnect" { "low" } else { entry }, RigCfg { max_req: req, max_resp: 8 << 20, buf_cap: 1, ..Default::default() }).await;
+		eps.insert(key.clone(), e);
+	}
+	&eps[&key]
+}
+
 async fn endpoint<'a>(eps: &'a mut HashMap<String, Endpoint>, entry: &str, req: u32, resp: u32) -> &'a Endpoint {
 	let key = format!("{entry}:{req}:{resp}");
 	if !eps.contains_key(&key) {
@@ -63,7 +72,10 @@ async fn req_case(i: usize, k: usize, c: &Value, eps: &mut HashMap<String, Endpo
 	let x = &c["case"];
 	let (entry, tr, framing) = (x["entry"].as_str().unwrap(), x["tr"].as_str().unwrap(), x["framing"].as_str().unwrap());
 	let (req, resp, size) = (x["req"].as_u64().unwrap() as u32, x["resp"].as_u64().unwrap() as u32, x["size"].as_u64().unwrap() as usize);
-	let ep = endpoint(eps, entry, req, resp).await;
+	// "frameBp": the message arrives while the connection's outbound side is saturated (needs room for the priming calls in the
+	// request limit and an in-process entry point; otherwise it is the plain frame case)
+	let bp = framing == "frameBp" && req >= 80 && entry != "server";
+	let ep = if bp { endpoint_bp(eps, entry, req).await } else { endpoint(eps, entry, req, resp).await };
 	let lead = [0usize, 0, 3][(i + k) % 3];
 	let body = padded_call(size, lead);
 	ep.take_log();
@@ -71,7 +83,7 @@ async fn req_case(i: usize, k: usize, c: &Value, eps: &mut HashMap<String, Endpo
 	let want = c["expect"].as_str().unwrap();
 	let rel = if size as u32 <= req { "within-request-limit" } else { "above-request-limit" };
 	if tr == "ws" {
-		let o = ep.ws_exchange(&body, &format!("p{i}")).await;
+		let o = if bp { ep.ws_exchange_backpressure(&body, &format!("p{i}")).await } else { ep.ws_exchange(&body, &format!("p{i}")).await };
 		let log: Vec<Value> = ep.take_log().into_iter().filter(|e| e["params"] != Value::Null).collect();
 		if let Some(e) = o.connect_err {
 			probs.push((format!("req:{entry}:ws:connect-failed"), json!({"err": e})));
@@ -223,6 +235,11 @@ async fn batch_case(i: usize, k: usize, c: &Value, eps: &mut HashMap<String, End
 	let contents = ["ascii", "esc", "multi"];
 	let mut calls = vec![];
 	for (j, l) in lens.iter().enumerate() {
+		if *l == 0 {
+			// a notification entry: it runs, and contributes nothing to the reply
+			calls.push(format!(r#"{{"jsonrpc":"2.0","method":"echo","params":["{}"]}}"#, "n".repeat(5 + 7 * j)));
+			continue;
+		}
 		let idt = format!("{}", j + 1);
 		let env = envelope(&idt, "result");
 		if *l < env + 2 {
@@ -233,7 +250,8 @@ async fn batch_case(i: usize, k: usize, c: &Value, eps: &mut HashMap<String, End
 	}
 	let text = format!("[{}]", calls.join(","));
 	let want = c["expect"].as_str().unwrap();
-	let total = 1 + lens.len() + lens.iter().sum::<usize>();
+	let ncalls = lens.iter().filter(|l| **l > 0).count();
+	let total = 1 + ncalls + lens.iter().sum::<usize>();
 	let rel = if total <= m { "fits" } else { "exceeds" };
 	for tr in ["http", "ws"] {
 		let frames = match exchange(ep, tr, &text, &format!("p{i}")).await {
@@ -256,7 +274,7 @@ async fn batch_case(i: usize, k: usize, c: &Value, eps: &mut HashMap<String, End
 		let got = if is_too_big { "e32011" } else if v.is_array() { "unchanged" } else { "other" };
 		if got != want {
 			probs.push((format!("resp:{tr}:batch:{rel}:exp-{want}-got-{got}"), json!({"len": f.len(), "limit": m, "lens": lens, "frame": f.chars().take(200).collect::<String>()})));
-		} else if want == "unchanged" && (f.len() != total || v.as_array().map(|a| a.len()) != Some(lens.len())) {
+		} else if want == "unchanged" && (f.len() != total || v.as_array().map(|a| a.len()) != Some(ncalls)) {
 			probs.push((format!("resp:{tr}:batch:fitting-reply-altered"), json!({"len": f.len(), "total": total})));
 		}
 	}
